@@ -22,6 +22,18 @@ class BooleanEncoder(encoder.IntegerEncoder):
         return substrate, False, False
 
 
+class BitStringEncoder(encoder.BitStringEncoder):
+    def encodeValue(self, value, asn1Spec, encodeFun, **options):
+        # the unused-bits octet counts as one of the contents octets of a segment
+        maxChunkSize = options.get('maxChunkSize', 0)
+        if maxChunkSize:
+            options.update(maxChunkSize=maxChunkSize - 1)
+
+        return encoder.BitStringEncoder.encodeValue(
+            self, value, asn1Spec, encodeFun, **options
+        )
+
+
 class RealEncoder(encoder.RealEncoder):
     def _chooseEncBase(self, value):
         m, b, e = value
@@ -238,6 +250,7 @@ TAG_MAP = encoder.TAG_MAP.copy()
 
 TAG_MAP.update({
     univ.Boolean.tagSet: BooleanEncoder(),
+    univ.BitString.tagSet: BitStringEncoder(),
     univ.Real.tagSet: RealEncoder(),
     useful.GeneralizedTime.tagSet: GeneralizedTimeEncoder(),
     useful.UTCTime.tagSet: UTCTimeEncoder(),
@@ -250,6 +263,7 @@ TYPE_MAP = encoder.TYPE_MAP.copy()
 
 TYPE_MAP.update({
     univ.Boolean.typeId: BooleanEncoder(),
+    univ.BitString.typeId: BitStringEncoder(),
     univ.Real.typeId: RealEncoder(),
     useful.GeneralizedTime.typeId: GeneralizedTimeEncoder(),
     useful.UTCTime.typeId: UTCTimeEncoder(),
